@@ -4,7 +4,7 @@
  *                                                              library prints the registry and exits by itself)
  *   c48 [--cfg=name:value …] show <type> <name> [<type> <name>…] -> values stored after the REAL command-line parsing
  *   (environment C48_MC_REPLAY=1: the Engine is created with a record/replay path set, which unlocks the MC items)
- *   c48 cases                                              -> stdin: one case per line, tab separated
+ *   c48 cases [K]                                          -> stdin: one case per line, tab separated (K: batch size)
  *         <route> \t <name> \t <type> \t <value> \t <readname>
  *       route: parse   simgrid::config::set_parse("name:value")   (what sg_config_cmd_line does with --cfg=)
  *              string  simgrid::config::set_as_string(name, value)
@@ -25,6 +25,8 @@
 #include <sstream>
 #include <stdexcept>
 #include <string>
+#include <algorithm>
+#include <sys/mman.h>
 #include <sys/resource.h>
 #include <sys/wait.h>
 #include <typeinfo>
@@ -195,8 +197,14 @@ int main(int argc, char** argv)
     fprintf(stderr, "usage: c48 [--cfg=…] list | show <type> <name> | cases\n");
     return 2;
   }
+  /* Batches: one forked child runs up to K consecutive cases as long as they are about DIFFERENT items (an item's
+   * state is private to it), and reports its progress in shared memory; if it dies in case p, the parent reports that
+   * and forks again from p+1. K=1 gives one child per case. */
+  size_t K = argc > 2 ? strtoul(argv[2], nullptr, 10) : 1;
+  if (K < 1)
+    K = 1;
+  std::vector<std::vector<std::string>> all;
   std::string line;
-  size_t idx = 0;
   while (std::getline(std::cin, line)) {
     std::vector<std::string> f;
     size_t pos = 0;
@@ -207,10 +215,24 @@ int main(int argc, char** argv)
         break;
       pos = t + 1;
     }
-    if (f.size() != 5) {
+    all.push_back(f);
+  }
+  auto* progress = static_cast<volatile size_t*>(
+      mmap(nullptr, sizeof(size_t), PROT_READ | PROT_WRITE, MAP_SHARED | MAP_ANONYMOUS, -1, 0));
+  size_t idx = 0;
+  while (idx < all.size()) {
+    if (all[idx].size() != 5) {
       printf("%zu exc harness: bad line\n", idx++);
       continue;
     }
+    size_t end = idx;
+    std::vector<std::string> used;
+    while (end < all.size() && end - idx < K && all[end].size() == 5 &&
+           std::find(used.begin(), used.end(), all[end][4]) == used.end()) {
+      used.push_back(all[end][4]);
+      end++;
+    }
+    *progress = idx;
     fflush(stdout);
     pid_t pid = fork();
     if (pid == 0) {
@@ -218,17 +240,26 @@ int main(int argc, char** argv)
       if (devnull >= 0)
         dup2(devnull, 2); // "Configuration change" chatter, xbt_die messages and backtraces
       signal(SIGABRT, SIG_DFL);
-      child(idx, f);
-      fflush(stdout);
+      for (size_t i = idx; i < end; i++) {
+        *progress = i;
+        child(i, all[i]);
+        fflush(stdout);
+      }
+      *progress = end;
       _exit(77); // anything else (exit() called by a callback, e.g. for the value "help") is reported by the parent
     }
     int st = 0;
     waitpid(pid, &st, 0);
+    size_t p = *progress;
+    if (WIFEXITED(st) && WEXITSTATUS(st) == 77 && p == end) {
+      idx = end;
+      continue;
+    }
     if (WIFSIGNALED(st))
-      printf("%zu sig %d\n", idx, WTERMSIG(st));
-    else if (WEXITSTATUS(st) != 77)
-      printf("%zu exit %d\n", idx, WEXITSTATUS(st));
-    idx++;
+      printf("%zu sig %d\n", p, WTERMSIG(st));
+    else
+      printf("%zu exit %d\n", p, WEXITSTATUS(st));
+    idx = p + 1;
   }
   fflush(stdout);
   return 0;
